@@ -35,6 +35,9 @@ var interpretAllow = []string{
 	"internal/itoa", "io/fs", "bufio", "encoding/hex", "encoding/base64", "text/tabwriter",
 }
 
+// packages whose package-level variable initialisers are run although their functions are stubbed.
+var initOnly = map[string]bool{"context": true}
+
 func (p *Program) interpretable(path string) bool {
 	if p.allow[path] {
 		return true
